@@ -159,6 +159,7 @@ fn enumerate(l: &mut Local, k: u64, rs: u64, base: &Scenario, bins: &Bins, root:
         let mut acts: Vec<(Act, Mode)> = sizes(req.min(9000)).into_iter().map(|n| (Act::Max(n), Mode::Benign)).collect();
         acts.push((Act::Err(cli::EINTR), Mode::Benign));
         acts.push((Act::Err(cli::EIO), Mode::Hard));
+        acts.push((Act::Err(cli::EAGAIN), Mode::Hard));
         for (a, m) in acts {
             space += 1;
             if account(l, k, rs, &one(at(i, a), vec![], m), bins, root, crlf, true).0 {
